@@ -8,7 +8,6 @@ package h_bpfsvc
 import (
 	"fmt"
 	"net"
-	"os"
 	"reflect"
 	"sort"
 	"strings"
@@ -274,22 +273,26 @@ type expFE struct {
 	aff       int
 	optional  bool // may be absent when it would have no backends
 	extIPType bool
-	// ambiguous: the service carries zone hints AND has a terminating endpoint.  Kubernetes
-	// derives the topology decision from ready endpoints only; the syncer's filters also look
-	// at terminating ones (see strictTopology).  allLocal/allRemote are the unfiltered ready sets.
-	ambiguous bool
-	allLocal  []string
-	allRemote []string
+	npRemote  bool
+	// Preconditions of the one known defect (felix/bpf/proxy/topology.go lets terminating,
+	// not-ready endpoints take part in the zone-hint decision; Kubernetes uses ready ones only).
+	// They never relax the oracle: they only decide under which oracle NAME a mismatch of
+	// exactly the defect's shape is reported, so that known_findings.json can list it while
+	// every other mismatch keeps its ordinary name.
+	//   knownZero:   a not-ready terminating endpoint is hinted for this zone and no ready one is
+	//                (Kubernetes falls back to all ready endpoints; defect shape: zero backends)
+	//   knownSelect: topology-mode Auto, a terminating endpoint has no hint, and the ready endpoints'
+	//                hints select a proper subset (defect shape: ALL ready endpoints listed)
+	knownZero   bool
+	knownSelect bool
+	allLocal    []string // unfiltered ready endpoints
+	allRemote   []string
 }
 
-// strictTopology (env VERIF_C42_STRICT_TOPOLOGY=1) makes the final oracle demand the
-// Kubernetes topology selection also for hinted services that have a terminating endpoint.
-// It is off by default because that demand fails on the unchanged tree (reported finding:
-// a not-ready terminating endpoint hinted for this zone suppresses the fall-back to all ready
-// endpoints, leaving the frontend with zero backends); the relaxed oracle still requires that
-// only ready endpoints are listed, local ones first, and counts the divergence as a probe.
-var strictTopology = os.Getenv("VERIF_C42_STRICT_TOPOLOGY") != ""
-
+const (
+	oracleKnownZero   = "hinted_terminating_endpoint_zero_backends"
+	oracleKnownSelect = "hinted_terminating_endpoint_changed_selection"
+)
 
 func feKey(ipa string, port int, proto uint8) string {
 	k := nat.NewNATKey(net.ParseIP(ipa), uint16(port), proto)
@@ -337,14 +340,12 @@ func expected(st *kState, npIPs []net.IP) map[string]*expFE {
 	out := map[string]*expFE{}
 	add := func(e *expFE) { out[e.key] = e }
 	for _, s := range st.live() {
-		sel, _ := s.selected()
+		sel, filtered := s.selected()
 		etp := s.etpLocal && (s.typ != tClusterIP || len(s.ext) > 0)
-		ambiguous := false
+		knownZero, knownSelect := s.knownShapes()
+		_ = filtered
 		var allReady []kEp
 		for _, e := range s.eps {
-			if e.term && s.hints {
-				ambiguous = true
-			}
 			if e.ready {
 				allReady = append(allReady, e)
 			}
@@ -354,7 +355,7 @@ func expected(st *kState, npIPs []net.IP) map[string]*expFE {
 			remote := epStrs(sel, p.target, func(e kEp) bool { return e.node != 0 })
 			mk := func(ipa string, port int, what string) *expFE {
 				return &expFE{key: feKey(ipa, port, p.protoNum()), desc: fmt.Sprintf("%s %s %s:%d/%s", s.name, what, ipa, port, p.proto()),
-					svc: s.name + "/" + p.name, local: local, remote: remote, aff: s.aff, ambiguous: ambiguous,
+					svc: s.name + "/" + p.name, local: local, remote: remote, aff: s.aff, knownZero: knownZero, knownSelect: knownSelect,
 					allLocal:  epStrs(allReady, p.target, func(e kEp) bool { return e.node == 0 }),
 					allRemote: epStrs(allReady, p.target, func(e kEp) bool { return e.node != 0 })}
 			}
@@ -414,6 +415,7 @@ func expected(st *kState, npIPs []net.IP) map[string]*expFE {
 						e.allLocal = nil
 						e.allRemote = epStrs(allReady, p.target, func(e kEp) bool { return e.node == n })
 						e.optional = true
+						e.npRemote = true
 						add(e)
 					}
 				}
@@ -423,21 +425,29 @@ func expected(st *kState, npIPs []net.IP) map[string]*expFE {
 	return out
 }
 
-// subsetStrs: sorted a is a duplicate-free subset of sorted b.
-func subsetStrs(a, b []string) bool {
-	j := 0
-	for i, x := range a {
-		if i > 0 && a[i-1] == x {
-			return false
-		}
-		for j < len(b) && b[j] < x {
-			j++
-		}
-		if j >= len(b) || b[j] != x {
-			return false
+// knownShapes evaluates the preconditions of the known topology defect (see expFE).
+func (s *kSvc) knownShapes() (zero, sel bool) {
+	if !s.hints {
+		return false, false
+	}
+	nReady, readyHere, termHere, termNoHint := 0, false, false, false
+	for _, e := range s.eps {
+		switch {
+		case e.ready:
+			nReady++
+			if e.hint == thisZone {
+				readyHere = true
+			}
+		case e.term && e.noHint:
+			termNoHint = true
+		case e.term && e.hint == thisZone:
+			termHere = true
 		}
 	}
-	return true
+	_, filtered := s.selected()
+	zero = termHere && !readyHere && nReady > 0 && !(s.topoAuto && termNoHint)
+	sel = s.topoAuto && termNoHint && filtered
+	return zero, sel
 }
 
 func eqStrs(a, b []string) bool {
@@ -480,6 +490,9 @@ func finalOracle(r *core.R, w *world, st *kState, npIPs []net.IP, ctx string) {
 			if e.optional && len(e.local)+len(e.remote) == 0 {
 				continue
 			}
+			if e.knownZero && e.npRemote {
+				fail(oracleKnownZero, "zero-backend variant: a not-ready terminating endpoint hinted for this zone is the only endpoint the syncer's hint filter keeps, so frontend %s is absent although the service has ready endpoints %v on that node (Kubernetes decides on ready endpoints only and falls back to all of them)", e.desc, e.remote)
+			}
 			fail("missing_frontend", "expected frontend %s is not in the map", e.desc)
 		}
 		val := nat.FrontendValueFromBytes(raw)
@@ -505,17 +518,17 @@ func finalOracle(r *core.R, w *world, st *kState, npIPs []net.IP, ctx string) {
 		gr := append([]string(nil), got[lc:]...)
 		sort.Strings(gl)
 		sort.Strings(gr)
-		if e.ambiguous && !strictTopology && (!eqStrs(gl, e.local) || !eqStrs(gr, e.remote)) {
-			// relaxed: only ready endpoints, local ones first, no duplicates
-			if !subsetStrs(gl, e.allLocal) || !subsetStrs(gr, e.allRemote) {
-				fail("ready_endpoints_only", "frontend %s lists local %v remote %v; ready endpoints are local %v remote %v", e.desc, gl, gr, e.allLocal, e.allRemote)
+		if !eqStrs(gl, e.local) || !eqStrs(gr, e.remote) {
+			// The oracle is strict.  A mismatch of exactly the known defect's shape, under exactly its
+			// precondition, is reported under its own name; anything else keeps the ordinary names.
+			if e.knownZero && cnt == 0 {
+				fail(oracleKnownZero, "zero-backend variant: a not-ready terminating endpoint hinted for this zone is the only endpoint the syncer's hint filter keeps, so frontend %s lists no backend although the service has ready endpoints local=%v remote=%v (Kubernetes decides on ready endpoints only and falls back to all of them)", e.desc, e.local, e.remote)
 			}
-			if cnt == 0 && len(e.local)+len(e.remote) > 0 {
-				r.Probe("KNOWN_hinted_terminating_endpoint_blackholes_frontend")
-			} else {
-				r.Probe("KNOWN_hinted_terminating_endpoint_changes_selection")
+			if e.knownSelect && eqStrs(gl, e.allLocal) && eqStrs(gr, e.allRemote) {
+				fail(oracleKnownSelect, "changed-selection variant: a terminating endpoint without a zone hint switches off zone filtering in topology-mode Auto: frontend %s lists ALL ready endpoints local=%v remote=%v; every ready endpoint is hinted and those hinted for this zone are local=%v remote=%v (Kubernetes decides on ready endpoints only)", e.desc, gl, gr, e.local, e.remote)
 			}
-		} else {
+		}
+		{
 			if cnt != len(e.local)+len(e.remote) {
 				fail("backend_count", "frontend %s lists %d backends %v; the service has ready endpoints local=%v remote=%v", e.desc, cnt, got, e.local, e.remote)
 			}
